@@ -219,11 +219,23 @@ def do_call(world, call):
         return {"k": "exc", "v": "", "cls": type(ex).__name__, "phase": phase}
 
 
+class TooManyTimeouts(Exception):
+    pass
+
+
+_timeouts = [0]
+
+
 def guarded_call(world, call):
+    """a call that does not return within 5 s is the observation 'ImplTimeout'; after 5 of them the
+    replay is abandoned (a looping mutant must not cost hours)"""
     try:
         with time_limit(5):
             return do_call(world, call)
     except ImplTimeout:
+        _timeouts[0] += 1
+        if _timeouts[0] > 5:
+            raise TooManyTimeouts("%r" % (call,))
         return {"k": "exc", "v": "", "cls": "ImplTimeout", "phase": "walk"}
 
 
@@ -248,6 +260,40 @@ class Replayer:
             sh = guarded_call(world, call)
             steps.append({"c": ci, "w": call["w"], "sh": sh, "fr": self.fresh_outcome(ci), "st": world.walker_state()})
         return steps
+
+
+def _replay_chunk(arg):
+    desc, items = arg
+    rp = Replayer(desc)
+    out = []
+    try:
+        for i, h in items:
+            out.append({"id": i, "steps": rp.replay(h)})
+    except TooManyTimeouts as ex:
+        return out, rp.fresh, str(ex)
+    return out, rp.fresh, None
+
+
+def replay_all(ctx, desc, items, nproc):
+    """replay (id, history) pairs, in `nproc` forked worker processes; returns traces sorted by id"""
+    import multiprocessing
+
+    if nproc <= 1 or len(items) < 200:
+        res = [_replay_chunk((desc, items))]
+    else:
+        n = 64
+        chunks = [(desc, items[k::n]) for k in range(n)]
+        with multiprocessing.get_context("fork").Pool(nproc) as pool:
+            res = pool.map(_replay_chunk, chunks, chunksize=1)
+    traces, fresh = [], {}
+    for tr, fr, err in res:
+        traces += tr
+        for k, v in fr.items():
+            fresh.setdefault(k, v)
+        if err:
+            ctx.violation("Terminates", "walker calls do not return within 5 s (replay abandoned after 5 time-outs): %s" % err, {"call": err})
+    traces.sort(key=lambda t: t["id"])
+    return traces, fresh
 
 
 # ----------------------------------------------------------------------------------------
@@ -289,6 +335,20 @@ def mc(ctx, label, c, invariants, coverage=False):
     return res
 
 
+def line_coverage(res, needle):
+    """largest TLC coverage count of an expression on the line of DagWalker.tla containing `needle`"""
+    import re
+
+    with open(os.path.join(tlc.SPEC_DIR, "DagWalker.tla")) as fh:
+        lines = [i + 1 for i, l in enumerate(fh) if needle in l]
+    if len(lines) != 1:
+        raise MachineryError("coverage needle %r matches %d lines of DagWalker.tla" % (needle, len(lines)))
+    cnt = [int(m.group(1)) for m in re.finditer(r"line %d, col \d+ to line \d+, col \d+ of module DagWalker: (\d+)" % lines[0], res.stdout)]
+    if not cnt:
+        raise MachineryError("no coverage information for line %d of DagWalker.tla" % lines[0])
+    return max(cnt)
+
+
 def cfgd(reset, oneshot, calls, bad, nodes, kids, maps, roots=None):
     return dict(
         reset="TRUE" if reset else "FALSE",
@@ -322,10 +382,10 @@ def t1(ctx, desc):
     repaired = [
         ("one-shot, DAG A, 2 maps", cfgd(True, True, 3 if q else 4, "BadA1Two" if q else "BadA2Two", "NodesA", "KidsA", "MapsTwo")),
         ("persistent, DAG A, no kwargs", cfgd(True, False, 3 if q else 4, "BadA1One" if q else "BadA2One", "NodesA", "KidsA", "MapsOne")),
-        ("one-shot, DAG B, 2 maps", cfgd(True, True, 2 if q else 3, "BadB1Two", "NodesB", "KidsB", "MapsTwo")),
     ]
     if not q:
         repaired += [
+            ("one-shot, DAG B, 2 maps", cfgd(True, True, 3, "BadB1Two", "NodesB", "KidsB", "MapsTwo")),
             ("persistent, DAG B, no kwargs", cfgd(True, False, 3, "BadB1One", "NodesB", "KidsB", "MapsOne")),
             ("one-shot, Substituter sub-DAG of the menu", cfgd(True, True, 4, "BadSub", "NodesSub", "MenuKids", "MapsSub", "RootsSub")),
             ("persistent, Simplifier sub-DAG of the menu", cfgd(True, False, 4, "BadSimp", "NodesSimp", "MenuKids", "MapsSimp", "RootsSimp")),
@@ -339,12 +399,17 @@ def t1(ctx, desc):
                 {"config": c, "trace": [s["vars"] for s in res.trace]},
             )
         for act in ("Call", "Pop", "Finish", "Return"):
-            if act in res.coverage and res.coverage[act][1] == 0:
+            if res.coverage.get(act, (0, 0))[1] == 0:
                 raise MachineryError("T1 vacuous: action %s never taken (%s)" % (act, label))
+        needles = ["ret' = Exc(cls)"] + (["walk() shortcut"] if c["oneshot"] == "FALSE" else [])
+        for needle in needles:
+            if line_coverage(res, needle) == 0:
+                raise MachineryError("T1 vacuous: the branch %r is never taken (%s)" % (needle, label))
     # ---- sanity of the invariants: a persistent memo with keyword arguments is history dependent
-    res = mc(ctx, "control: persistent memo with 2 maps, no failure", cfgd(True, False, 2, "BadA0Two", "NodesA", "KidsA", "MapsTwo"), ["HistoryIndependent"])
-    if res.violated != "HistoryIndependent":
-        raise MachineryError("T1 control: HistoryIndependent cannot fail (the invariant lost its teeth)")
+    if not q:
+        res = mc(ctx, "control: persistent memo with 2 maps, no failure", cfgd(True, False, 2, "BadA0Two", "NodesA", "KidsA", "MapsTwo"), ["HistoryIndependent"])
+        if res.violated != "HistoryIndependent":
+            raise MachineryError("T1 control: HistoryIndependent cannot fail (the invariant lost its teeth)")
     # ---- the code as written: expected counterexamples, on the concrete sub-DAGs of the menu
     out = []
     written = [
@@ -436,17 +501,16 @@ def run(ctx):
     # ---- T1 -----------------------------------------------------------------------------
     cex = t1(ctx, desc)
     # ---- T2: replay on the real walkers ----------------------------------------------------
-    rp = Replayer(desc)
-    traces = []
-    for i, h in enumerate(hist):
-        traces.append({"id": i, "steps": rp.replay(h)})
+    items = list(enumerate(hist))
     nr = 300 if q else 4000
     for i in range(nr):
-        h = random_history(ctx.rng, len(desc["calls"]), 4, 8 if q else 12)
-        traces.append({"id": 1000000 + i, "steps": rp.replay(h)})
-    t1traces = [{"id": c["id"], "steps": rp.replay(c["hist"])} for c in cex]
+        items.append((1000000 + i, random_history(ctx.rng, len(desc["calls"]), 4, 8 if q else 12)))
+    items += [(c["id"], c["hist"]) for c in cex]
+    alltr, fresh = replay_all(ctx, desc, items, 4 if q else 8)
+    traces = [t for t in alltr if t["id"] < T1_ID]
+    t1traces = [t for t in alltr if t["id"] >= T1_ID]
     # vacuity of the generator: failure modes must actually occur
-    fresh = list(rp.fresh.values())
+    fresh = list(fresh.values())
     if not any(o["k"] == "exc" and o["phase"] == "walk" for o in fresh):
         raise MachineryError("vacuous: no call of the menu fails inside a walk")
     if not any(o["k"] == "exc" and o["phase"] == "build" for o in fresh):
